@@ -399,3 +399,24 @@ Theorem C13_source_tie_running_sums :
   (forall from_day to_day gls, run_gl_gen from_day to_day gls = running g_amt 0 gls).
 Proof. exact running_sums_gen_agree. Qed.
 Print Assumptions C13_source_tie_running_sums.
+
+(** Source tie (regenerated on every run): which rows of the three transaction sheets and of the gain/loss sheet are in the
+    window.  The per-entry tests of `EntrySetIterator.__next__`, re-read from abstract_entry_set.py (Model/GeneratedTie.v,
+    fragment entry_set) and interpreted by Model/EntrySetGen.v, select exactly the [iter_window] views [compute] puts into
+    cd_ins / cd_outs / cd_intras / cd_gls: every entry is tested (not only the leading ones) on its own calendar day, against
+    both bounds.  Proofs/EntrySetGenProofs.v. *)
+From RP2V Require Import Model.EntrySetGen Proofs.EntrySetGenProofs.
+Theorem C13_source_tie_window_rows :
+  (forall from_day to_day (ins : list intx),
+     iter_window_gen i_ts from_day to_day ins = iter_window (fun a => local_day (i_ts a)) from_day to_day ins) /\
+  (forall from_day to_day (outs : list outtx),
+     iter_window_gen o_ts from_day to_day outs = iter_window (fun a => local_day (o_ts a)) from_day to_day outs) /\
+  (forall from_day to_day (xs : list intratx),
+     iter_window_gen x_ts from_day to_day xs = iter_window (fun a => local_day (x_ts a)) from_day to_day xs) /\
+  (forall from_day to_day (gls : list gl),
+     iter_window_gen (fun g => t_ts (g_ev g)) from_day to_day gls = iter_window g_day from_day to_day gls).
+Proof.
+  exact (conj (iter_window_gen_agrees i_ts) (conj (iter_window_gen_agrees o_ts) (conj (iter_window_gen_agrees x_ts)
+        (iter_window_gen_agrees (fun g => t_ts (g_ev g)))))).
+Qed.
+Print Assumptions C13_source_tie_window_rows.
